@@ -26,8 +26,12 @@ GwGroup == "gateway.networking.k8s.io"
 Classes   == {"ours", "ours2", "foreign", "missing"}   \* ours2: a second GatewayClass of this controller
 Ours      == {"ours", "ours2"}
 Protos    == {"HTTP", "TCP"}
-KindsVals == {"empty", "HTTPRoute", "TCPRoute", "Other", "Both"}
-FromVals  == {"noallowed", "nofrom", "Same", "All", "SelWeb", "SelDb", "SelNil"}
+(* kinds: no entry; an entry for one kind / both / another kind of the gateway group (group not set); CoreGroup: entries for both
+   kinds with group "" (the core group, not the Gateway API one); GwGroup: both kinds with the gateway group spelled out *)
+KindsVals == {"empty", "HTTPRoute", "TCPRoute", "Other", "Both", "CoreGroup", "GwGroup"}
+(* namespaces: allowedRoutes missing; from missing; Same; All; Selector with matchLabels tier=web / tier=db; Selector without
+   selector; Selector with matchExpressions tier In (web) / tier NotIn (web); matchLabels tier=web and matchExpressions tier NotIn (web) *)
+FromVals  == {"noallowed", "nofrom", "Same", "All", "SelWeb", "SelDb", "SelNil", "ExprInWeb", "ExprNotInWeb", "SelWebExprNotWeb"}
 Labels    == {"web", "db"}
 RouteKinds == {"HTTPRoute", "TCPRoute"}
 RouteNs   == {"g", "r"}
@@ -74,8 +78,8 @@ ResolvesToOurs(w, rt, ref) ==
 
 KindAdmits(l, kind) ==
     CASE l.kinds = "empty" -> TRUE
-      [] l.kinds = "Both" -> TRUE
-      [] l.kinds = "Other" -> FALSE
+      [] l.kinds \in {"Both", "GwGroup"} -> TRUE
+      [] l.kinds \in {"Other", "CoreGroup"} -> FALSE
       [] OTHER -> l.kinds = kind
 
 NsAdmits(w, l, ns) ==
@@ -83,6 +87,9 @@ NsAdmits(w, l, ns) ==
       [] l.from = "All" -> TRUE
       [] l.from = "SelWeb" -> w.label[ns] = "web"
       [] l.from = "SelDb" -> w.label[ns] = "db"
+      [] l.from = "ExprInWeb" -> w.label[ns] = "web"
+      [] l.from = "ExprNotInWeb" -> w.label[ns] # "web"
+      [] l.from = "SelWebExprNotWeb" -> FALSE
       [] OTHER -> FALSE        \* no allowedRoutes, no namespaces.from, selector missing
 
 Admitted(w, rt, ref, i) ==
@@ -223,8 +230,8 @@ RulesOK ==
     \A k \in RouteSlots, i \in ListenerIds :
         AdmittedPair(w, k, i) =>
             /\ w.class \in Ours
-            /\ w.l[i].from \in {"Same", "All", "SelWeb", "SelDb"}
-            /\ w.l[i].kinds # "Other"
+            /\ w.l[i].from \in {"Same", "All", "SelWeb", "SelDb", "ExprInWeb", "ExprNotInWeb"}
+            /\ w.l[i].kinds \notin {"Other", "CoreGroup"}
             /\ (w.l[i].from = "Same" => w.rt[k].ns = "g")
 
 Emit == (Len(hist) = MaxSteps) => PrintT(<<"BEHAVIOUR", ToJson(hist)>>)
